@@ -42,6 +42,8 @@ type Case struct {
 	Body   string `json:"body,omitempty"`
 	OnDisk bool   `json:"on_disk,omitempty"`
 	Where  string `json:"where,omitempty"`
+	// funcs, delivery family: how the bytes of the file reach the loader (nil: a complete regular file / memory)
+	Delivery *delivery `json:"delivery,omitempty"`
 	// funcs, long-line family: the case is rebuilt from these
 	Long *longCase `json:"long_line,omitempty"`
 	// funcs, names family: the case is rebuilt from these
@@ -175,12 +177,17 @@ func worker(w *runner.W) {
 	if only == "long" { // diagnosis: the long-line family alone
 		e.longPhase(&unit)
 	}
+	if only == "delivery" { // diagnosis: the delivery family alone (in-process and cli)
+		e.deliveryPhase(&unit)
+		e.cliPipePhase(&unit)
+	}
 	if only == "names" { // diagnosis: the names family alone (in-process and cli)
 		e.namesPhase(&unit)
 		e.cliNamesPhase(&unit)
 	}
 	if only == "" || only == "funcs" || only == "cli" {
 		e.cliPhase(&unit)
+		e.cliPipePhase(&unit)
 		e.cliNamesPhase(&unit)
 	}
 	if only == "" || only == "opt" || strings.Contains(only, "/") {
@@ -234,7 +241,7 @@ func main() {
 				"(all-empty = what the optimiser probes with, numeric, huge, odd bytes, two real SliceSpaceExpressionContexts; fewer for constant-only programs, see exprgen.Plan); oracle: byte-equal results. " +
 				"(i-time) " + strconv.Itoa(len(timeTemplates())) + " templates around {time live}/{time delta} (bare, nested in helpers, behind a funcs-file function) compiled, then evaluated after the wall clock advanced by >= 2 s: live must lie between the clock readings taken around the evaluation, delta between the elapsed bounds (a frozen value cannot). " +
 				"(ii) funcs files: " + funcsRule(tier) + ". " +
-				"(ii-cli) funcs files through the start-up sequence of " + cliRule(tier) + "; " + cliNamesRule(tier) + ". " +
+				"(ii-cli) funcs files through the start-up sequence of " + cliRule(tier) + "; " + cliPipeRule(tier) + "; " + cliNamesRule(tier) + ". " +
 				"non-trivial = both builds compiled without error and at least one context was compared (for funcs: the definition loaded and the inlined body compiled; for cli: both processes exited with success); an outcome is (part, function or body, results)"
 		},
 		Assumptions: func(string) []string {
@@ -244,6 +251,7 @@ func main() {
 				"the shared sub-context pool of the range helpers is put into a known state: while compiling, every pooled sub-context's parent is a context whose keys are all \"3\", while evaluating one whose keys are all \"5\" (in a real run they would be contexts of earlier, unrelated evaluations); a helper that resets its sub-context never sees either",
 				"templates that read the clock ({time now|live|delta}) are compiled and evaluated again until both builds ran within one wall-clock second; the clock itself is only read to bracket, never to decide",
 				"funcs files: one space between name and body, no '#' or backslash inside a body, lines are broken only at argument separators (the documentation does not say how other whitespace around a continuation is joined); zero-argument call sites are key lookups and are not generated; a definition that LoadDefinitions rejects even when written on one line is not compared",
+				"delivery family: the statement speaks of the file's text, not of how its bytes arrive, so a funcs text that loads from a complete regular file is expected to load identically through a named pipe (one write, pieces, byte by byte) and through any chunking of an io.Reader; only fifos made by syscall.Mkfifo in the scratch directory and readers that return at least one byte per Read are used (no (0, nil) reads, no read errors, no file that grows while it is read - that race cannot be scheduled without timing); the pieces of a pipe delivery are separated by observing FIONREAD == 0 on the pipe, never by sleeping; in-process a load that has not returned after 60 s is reported as a hang and its writer released by opening the pipe O_RDONLY|O_NONBLOCK and draining it",
 				"long-line family: neither the statement nor docs/usage/funcsfile.md bounds the length of a line of a funcs file, so every definition of a generated file whose body compiles inline is expected to be loaded under its own name whatever the length of its physical lines (up to the largest size of the tier); lines end in \\n (no \\r\\n); the one-definition-per-line reference of the other funcs cases does not apply (it would itself be a long line)",
 				"names family (in-process and through the binary): where the statement is silent every reading is accepted, but ONE reading must explain the whole case (the set of loaded names and every call site): (a) a name used inside a body means what it meant when the definition was read (the unchanged tree: an earlier definition calling a name that a later line defines calls the built-in of that name, or is rejected when there is none) or what it means once all files are loaded; (b) of two definitions of one name the last or the first counts. No reading lets a built-in win over a loaded function of the same name, on the command line or in a later definition (the statement makes no exception for such names). The definitions of a file call the name with one argument where the built-in of that name takes one or wants a constant second one (so that the forward reference is accepted); a definition whose body, inlined down to built-ins, the built-in table refuses is expected not to load; defined names contain no blank, '#', quote or brace; a call site whose inlined form cannot be written (text as an argument) or is refused by the built-in table is not compared",
 				"cli part: the rare binary is built once per run by this harness (`go build -o <tmp>/rare .` in $VERIF_REPO, default /repo; a failed build is a harness error) and removed afterwards; every process gets an explicit environment (PATH, HOME=<scratch>, TZ=UTC, GOMAXPROCS=1, LANG=C and RARE_FUNC_FILES only when that is the delivery) and pipes for stdout/stderr, so colour is off unless --color is given (the terminal default, colour on, is not reachable without a pty); standard error (log lines of rejected definitions, compile errors) is not compared, only stdout and exit success; a process that has not exited after 60 s is reported as a hang",
